@@ -388,6 +388,12 @@ func (x *Exec) typeInv(v *Term, ty *Ty, alloc *Term) *Term {
 		}
 		return And(cs...)
 	case TSlice:
+		if ty.Go != nil {
+			if at, ok := ty.Go.Underlying().(*types.Array); ok {
+				n := IntLit(at.Len())
+				return And(wfSlice(v, alloc), Eq(slLen(v), n), Eq(slCap(v), n), Not(Eq(slReg(v), IntLit(0))))
+			}
+		}
 		return wfSlice(v, alloc)
 	case TPtr:
 		return And(Le(IntLit(0), v), Lt(v, alloc))
